@@ -38,12 +38,20 @@ def one(name):
 
 
 names = sorted(n for n in os.listdir(os.path.join(ROOT, "seeded")) if os.path.isdir(os.path.join(ROOT, "seeded", n)))
+ONLY = sys.argv[sys.argv.index("--only") + 1].split(",") if "--only" in sys.argv else None  # e.g. --only m22,m23,m24: re-run these, keep the other rows
+if ONLY:
+    names = [n for n in names if n.split("-")[-1] in ONLY]
 rows = []
 with cf.ThreadPoolExecutor(J) as ex:
     for row in ex.map(one, names):
         rows.append(row)
         print(*row[:3], flush=True)
 out = ["| seeded change | property | caught by quick check | stream | first message |", "|---|---|---|---|---|"]
-out += [f"| {n} | {p} | {c} | {s} | {m} |" for n, p, c, s, m in rows]
+new = {n: f"| {n} | {p} | {c} | {s} | {m} |" for n, p, c, s, m in rows}
+if ONLY and os.path.exists(os.path.join(ROOT, "seeded", "CATCH_MATRIX.md")):
+    old = {l.split("|")[1].strip(): l.rstrip("\n") for l in open(os.path.join(ROOT, "seeded", "CATCH_MATRIX.md")) if l.startswith("| C")}
+    old.update(new)
+    new = old
+out += [new[k] for k in sorted(new)]
 open(os.path.join(ROOT, "seeded", "CATCH_MATRIX.md"), "w").write("\n".join(out) + "\n")
 print(sum(1 for r in rows if r[2] == "yes"), "of", sum(1 for r in rows if not r[2].startswith("n/a")), "caught")
